@@ -293,4 +293,141 @@ theorem ve_correct (A : List Nat) (order : List Nat) (rules : List Rule)
     rw [payoff_eq_total]
     exact h3
 
+/-! ## the specification: exhaustive maximum over the joint action space -/
+
+theorem mem_allActs : ∀ (A a : List Nat), a ∈ allActs A ↔ Valid A a
+  | [], a => by cases a <;> simp [allActs, Valid]
+  | d :: ds, [] => by simp [allActs, Valid]
+  | d :: ds, x :: xs => by
+    simp only [allActs, List.mem_flatMap, List.mem_map, List.mem_range, Valid]
+    constructor
+    · rintro ⟨t, ht, k, hk, h⟩
+      injection h with h1 h2; subst h1; subst h2
+      exact ⟨hk, (mem_allActs ds t).mp ht⟩
+    · rintro ⟨hx, hv⟩
+      exact ⟨xs, (mem_allActs ds xs).mpr hv, x, hx, rfl⟩
+
+theorem maxL_ge : ∀ (l : List Rat) (q : Rat), q ∈ l → q ≤ maxL l
+  | [], _, h => by simp at h
+  | [p], q, h => by simp at h; subst h; simp [maxL]
+  | p :: p' :: ps, q, h => by
+    have ih := maxL_ge (p' :: ps)
+    simp only [maxL]
+    rcases List.mem_cons.mp h with h | h
+    · subst h; split
+      · exact le_refl _
+      · rename_i hlt; exact not_lt.mp hlt
+    · split
+      · rename_i hlt; exact le_of_lt (lt_of_le_of_lt (ih q h) hlt)
+      · exact ih q h
+
+theorem maxL_mem : ∀ (l : List Rat), l ≠ [] → maxL l ∈ l
+  | [], h => absurd rfl h
+  | [p], _ => by simp [maxL]
+  | p :: p' :: ps, _ => by
+    have ih := maxL_mem (p' :: ps) (by simp)
+    simp only [maxL]
+    split
+    · exact List.mem_cons_self ..
+    · exact List.mem_cons_of_mem _ ih
+
+/-- no valid joint action pays more than `bruteMax` -/
+theorem bruteMax_ge (A : List Nat) (rules : List Rule) (a : List Nat) (ha : Valid A a) :
+    payoffL rules a ≤ bruteMax A rules :=
+  maxL_ge _ _ (List.mem_map.mpr ⟨a, (mem_allActs A a).mpr ha, rfl⟩)
+
+/-- `bruteMax` is the payoff of some valid joint action (every agent has ≥ 1 action) -/
+theorem bruteMax_attained (A : List Nat) (rules : List Rule) (hA : ∀ d ∈ A, 0 < d) :
+    ∃ a, Valid A a ∧ payoffL rules a = bruteMax A rules := by
+  have hne : (allActs A).map (payoffL rules) ≠ [] := by
+    have : A.map (fun _ => 0) ∈ allActs A := (mem_allActs A _).mpr (valid_zeros A hA)
+    intro h
+    have h' := List.map_eq_nil_iff.mp h
+    rw [h'] at this; simp at this
+  obtain ⟨a, ha, hp⟩ := List.mem_map.mp (maxL_mem _ hne)
+  exact ⟨a, (mem_allActs A a).mp ha, hp⟩
+
+/-! ### lists and total functions -/
+
+theorem valid_iff_getD : ∀ (A l : List Nat), Valid A l ↔ l.length = A.length ∧ ∀ i, i < A.length → l.getD i 0 < A.getD i 0
+  | [], [] => by simp [Valid]
+  | [], _ :: _ => by simp [Valid]
+  | _ :: _, [] => by simp [Valid]
+  | d :: ds, x :: xs => by
+    simp only [Valid, valid_iff_getD ds xs, List.length_cons]
+    constructor
+    · rintro ⟨hx, hl, h⟩
+      refine ⟨by omega, ?_⟩
+      intro i hi
+      cases i with
+      | zero => simpa using hx
+      | succ i => simpa using h i (by omega)
+    · rintro ⟨hl, h⟩
+      refine ⟨by simpa using h 0 (by omega), by omega, ?_⟩
+      intro i hi
+      simpa using h (i+1) (by omega)
+
+theorem asgOf_listOf (n : Nat) (x : Asg) (k : Nat) (hk : k < n) : asgOf (listOf n x) k = x k := by
+  simp [asgOf, listOf, List.getD_eq_getElem?_getD, hk]
+
+theorem valid_listOf (A : List Nat) (x : Asg) (hx : InRange A x) : Valid A (listOf A.length x) := by
+  rw [valid_iff_getD]
+  refine ⟨by simp [listOf], ?_⟩
+  intro i hi
+  have := asgOf_listOf A.length x i hi
+  simp only [asgOf] at this
+  rw [this]; exact hx i hi
+
+theorem inRange_asgOf (A a : List Nat) (ha : Valid A a) : InRange A (asgOf a) := by
+  intro u hu
+  exact ((valid_iff_getD A a).mp ha).2 u hu
+
+theorem payoff_congr : ∀ (rules : List Rule) (x y : Asg), (∀ r ∈ rules, ∀ k ∈ r.keys, x k = y k) →
+    payoff rules x = payoff rules y
+  | [], _, _, _ => rfl
+  | r :: rs, x, y, h => by
+    simp only [payoff, Rule.eval]
+    rw [matchKV_congr r.keys r.vals x y (h r (List.mem_cons_self ..)),
+        payoff_congr rs x y (fun r' hr' => h r' (List.mem_cons_of_mem _ hr'))]
+
+/-- **VE = brute force.**  For every rule set whose keys name existing agents and every
+    elimination order covering them, the value VariableElimination reports equals the maximum
+    of the total payoff over all joint actions, and its action attains it. -/
+theorem ve_value_eq_bruteMax (A : List Nat) (order : List Nat) (rules : List Rule)
+    (hA : ∀ d ∈ A, 0 < d)
+    (horder : ∀ u ∈ order, u < A.length)
+    (hcov : ∀ r ∈ rules, ∀ k ∈ r.keys, k ∈ order) :
+    veValue A order rules = bruteMax A rules ∧
+    Valid A (listOf A.length (veAction A order rules)) ∧
+    payoffL rules (listOf A.length (veAction A order rules)) = bruteMax A rules := by
+  have hA' : ∀ u, u < A.length → 0 < A.getD u 0 := by
+    intro u hu
+    have : A.getD u 0 = A[u] := by simp [List.getD_eq_getElem?_getD, List.getElem?_eq_getElem hu]
+    rw [this]; exact hA _ (List.getElem_mem hu)
+  obtain ⟨h1, h2, h3⟩ := ve_correct A order rules hA' horder hcov
+  have hkeys : ∀ r ∈ rules, ∀ k ∈ r.keys, k < A.length := fun r hr k hk => horder k (hcov r hr k hk)
+  have hval := valid_listOf A _ h1
+  have hpay : payoffL rules (listOf A.length (veAction A order rules)) = payoff rules (veAction A order rules) := by
+    unfold payoffL
+    apply payoff_congr
+    intro r hr k hk
+    exact asgOf_listOf _ _ k (hkeys r hr k hk)
+  have hle : veValue A order rules ≤ bruteMax A rules := by
+    rw [h3, ← hpay]; exact bruteMax_ge A rules _ hval
+  have hge : bruteMax A rules ≤ veValue A order rules := by
+    obtain ⟨a, ha, hp⟩ := bruteMax_attained A rules hA
+    rw [← hp, h3]
+    exact h2 _ (inRange_asgOf A a ha)
+  have heq := le_antisymm hle hge
+  exact ⟨heq, hval, by rw [hpay, ← h3, heq]⟩
+
+/-- **`approx_reports_truth`** (first half): whatever in-range joint action an approximate
+    maximiser returns, its true payoff never exceeds the optimum, and the optimum is VE's value. -/
+theorem approx_below_optimum (A : List Nat) (order : List Nat) (rules : List Rule) (a : List Nat)
+    (hA : ∀ d ∈ A, 0 < d) (horder : ∀ u ∈ order, u < A.length)
+    (hcov : ∀ r ∈ rules, ∀ k ∈ r.keys, k ∈ order) (ha : Valid A a) :
+    payoffL rules a ≤ veValue A order rules := by
+  rw [(ve_value_eq_bruteMax A order rules hA horder hcov).1]
+  exact bruteMax_ge A rules a ha
+
 end AITB.VE
